@@ -477,7 +477,16 @@ pub fn check(ctx: &Ctx, rep: &mut Report) {
             let mut nph = 0;
             let mut labels = vec![];
             for k in &ks {
-                if *k == NPIECES && d == Dialect::Postgres && rng.coin() {
+                if *k == NPIECES && rng.chance(1, 3) {
+                    // a mark's number running straight into a word, or two numbered marks glued together: not
+                    // placeholders on Postgres (`$1st` is not `$1` followed by `st`), ordinary text elsewhere
+                    if t.ends_with(|c: char| c.is_alphanumeric() || c == '_' || c == '$' || c == '?') {
+                        t.push(' ');
+                    }
+                    t.push_str(*rng.pick(&["$1st", "$2_x", "$1abc", "$1$2", "$12ab", "$3\u{e9}"]));
+                    t.push(' ');
+                    labels.push("mark-number-then-word");
+                } else if *k == NPIECES && d == Dialect::Postgres && rng.coin() {
                     // a word that contains `$<digits>`: one identifier on Postgres, nothing to substitute
                     t.push(' ');
                     t.push_str(*rng.pick(&["abc$1", "caf\u{e9}$1", "ma\u{df}_$2", "x1$1$2"]));
@@ -514,6 +523,21 @@ pub fn check(ctx: &Ctx, rep: &mut Report) {
                     }
                 } else {
                     labels.push(push_piece(d, &mut t, *k, &mut nph, &mut rng));
+                }
+            }
+            if rng.chance(1, 8) {
+                // the template ends with its last visible character; sometimes that is a lone mark
+                while t.ends_with(|c: char| c.is_whitespace()) {
+                    t.pop();
+                }
+                if d == Dialect::Postgres && rng.coin() {
+                    if t.ends_with(|c: char| c.is_alphanumeric() || c == '_' || c == '$') {
+                        t.push(' ');
+                    }
+                    t.push('$');
+                    labels.push("final-lone-dollar");
+                } else {
+                    labels.push("no-trailing-blank");
                 }
             }
             check_template(ctx, rep, n, d, &t, &labels, &mut rng);
